@@ -68,9 +68,10 @@ pub fn install_panic_hook() {
 /// Run subject code; a panic becomes Err(PanicRec) (silently).
 pub fn catch<T>(f: impl FnOnce() -> T) -> Result<T, PanicRec> {
     install_panic_hook();
-    CAPTURING.with(|c| *c.borrow_mut() = true);
+    // nesting-safe: an inner catch must not switch capturing off for the outer one
+    let prev = CAPTURING.with(|c| c.replace(true));
     let r = catch_unwind(AssertUnwindSafe(f));
-    CAPTURING.with(|c| *c.borrow_mut() = false);
+    CAPTURING.with(|c| *c.borrow_mut() = prev);
     match r {
         Ok(v) => Ok(v),
         Err(_) => Err(LAST_PANIC
